@@ -13,19 +13,25 @@ def accessors():
     d = LocalDate(2021, 3, 4); t = LocalTime(5, 6, 7).plus_nanoseconds(120_000_000); ldt = d.at(t)
     i = Instant.from_utc(2021, 3, 4, 5, 6, 7).plus_nanoseconds(120_000_000); o = Offset.from_hours_and_minutes(5, 30)
     A = {}
+    def fp(get, v):
+        """format, then parse the text back with the same pattern: text plus what the parse gives (formatted again, so that it is JSON-able)."""
+        def run():
+            p = get(); text = p.format(v); r = p.parse(text)
+            return [text, "parsed:" + (p.format(r.value) if r.success else "FAILED")]
+        return run
     for nm in ("iso", "full_roundtrip"):
-        A[f"LocalDatePattern.{nm}"] = lambda nm=nm: getattr(T.LocalDatePattern, nm).format(d)
+        A[f"LocalDatePattern.{nm}"] = fp(lambda nm=nm: getattr(T.LocalDatePattern, nm), d)
     for nm in ("extended_iso", "long_extended_iso", "general_iso", "variable_precision_iso", "hour_minute_iso", "hour_iso"):
-        A[f"LocalTimePattern.{nm}"] = lambda nm=nm: getattr(T.LocalTimePattern, nm).format(t)
+        A[f"LocalTimePattern.{nm}"] = fp(lambda nm=nm: getattr(T.LocalTimePattern, nm), t)
     for nm in ("general_iso", "extended_iso", "bcl_round_trip", "full_roundtrip", "full_roundtrip_without_calendar", "variable_precision_iso", "date_hour_minute_iso", "date_hour_iso"):
-        A[f"LocalDateTimePattern.{nm}"] = lambda nm=nm: getattr(T.LocalDateTimePattern, nm).format(ldt)
+        A[f"LocalDateTimePattern.{nm}"] = fp(lambda nm=nm: getattr(T.LocalDateTimePattern, nm), ldt)
     for nm in ("general", "extended_iso"):
-        A[f"InstantPattern.{nm}"] = lambda nm=nm: getattr(T.InstantPattern, nm).format(i)
+        A[f"InstantPattern.{nm}"] = fp(lambda nm=nm: getattr(T.InstantPattern, nm), i)
     for nm in ("general_invariant", "general_invariant_with_z"):
-        A[f"OffsetPattern.{nm}"] = lambda nm=nm: getattr(T.OffsetPattern, nm).format(o)
+        A[f"OffsetPattern.{nm}"] = fp(lambda nm=nm: getattr(T.OffsetPattern, nm), o)
     for cls, letters, v in ((T.LocalDatePattern, "Rr", d), (T.LocalTimePattern, "oOr", t), (T.LocalDateTimePattern, "oOrRsS", ldt), (T.InstantPattern, "g", i)):
         for L in letters:
-            A[f"{cls.__name__}.create({L!r})"] = lambda cls=cls, L=L, v=v: cls.create(L, inv).format(v)
+            A[f"{cls.__name__}.create({L!r})"] = fp(lambda cls=cls, L=L: cls.create(L, inv), v)
     A["str(LocalDate)"] = lambda: str(d); A["str(Instant)"] = lambda: str(i); A["str(LocalDateTime)"] = lambda: str(ldt); A["str(LocalTime)"] = lambda: str(t)
     return A
 
@@ -39,6 +45,7 @@ def main():
             out[nm] = ["ok", A[nm]()]
         except Exception as e:  # noqa: BLE001
             out[nm] = ["raised", f"{type(e).__name__}: {e}"[:160]]
+    out["__optimize__"] = ["ok", sys.flags.optimize]
     print("@@C17CHILD " + json.dumps(out))
 
 
